@@ -348,6 +348,11 @@ func CheckEventLog(m *memberlist.Memberlist, rec *puppet.Recorder, who string) e
 		if !ok {
 			return fmt.Errorf("%s: event log says %s is a member (last %s at %.3fs) but Members() does not list it; log %v", who, name, e.Kind, e.T.Seconds(), brief(evs, name))
 		}
+		if RaceBuild {
+			// Members() hands out pointers into the node's table; reading their fields is only safe at a quiescent
+			// point, which the race detector cannot know. The field comparison is done by the ordinary build.
+			continue
+		}
 		if string(n.Meta) != string(e.Meta) {
 			return fmt.Errorf("%s: Members() shows %s with meta %q but the last %s event carried %q; log %v", who, name, n.Meta, e.Kind, e.Meta, brief(evs, name))
 		}
